@@ -58,6 +58,11 @@ def cases():
         lambda o, i: P("Cast", this=IS(o["x"]), to=P("DataType", this=ENUM("DATE"))), "TO_DATE yields a DATE of its argument")
     add("TO_TIMESTAMP(<seconds>) -> CAST(.. AS TIMESTAMP) (no time zone)", "to_timestamp", mk(lambda o: node("UnixToTime", "stmt", this=op(o, "x"))),
         lambda o, i: P("Cast", this=IS(i), to=P("DataType", this=ENUM("TIMESTAMP"))), "TO_TIMESTAMP returns TIMESTAMP_NTZ")
+    for sc in ("0", "3", "6", "9"):
+        add(f"TO_TIMESTAMP(<n>, {sc}) -> CAST(.. AS TIMESTAMP) (no time zone, at every scale)", "to_timestamp",
+            mk(lambda o, sc=sc: node("UnixToTime", "stmt", this=op(o, "x"), scale=op(o, "scale", lit(sc, False)))),
+            lambda o, i: P("Cast", this=IS(i), to=P("DataType", this=ENUM("TIMESTAMP"))),
+            "TO_TIMESTAMP returns TIMESTAMP_NTZ whatever the scale: DuckDB's TO_TIMESTAMP (scales other than 3 and 6) yields a time-zone-aware value")
     add("TO_TIMESTAMP_NTZ(x) -> STRPTIME(x, '%Y-%m-%d %H:%M:%S')", "to_timestamp_ntz", mk(lambda o: anon("TO_TIMESTAMP_NTZ", op(o, "x"))),
         lambda o, i: P("StrToTime", this=IS(o["x"]), format=LITERAL("%Y-%m-%d %H:%M:%S")), "the argument is the string to parse")
     for unit in ("DAY", "WEEK", "MONTH", "QUARTER", "YEAR"):
